@@ -82,7 +82,7 @@ void prop_c02(hz::Ctx &ctx) {
 }
 
 // ---------------------------------------------------------------- C03
-void prop_c03_encoding(hz::Ctx &ctx) {
+static void prop_c03_encoding(hz::Ctx &ctx) {
   auto refs = form_refs([](const Form &f) { return has_imm(f); });
   hz::Rng rng(ctx.seed ^ 0xc03);
   auto nontriv = [](const LineCase &c) { for (auto &o : c.it.ops) if (o.k == K_IMM) { uint64_t v = x86::maskw(o.imm.v, o.imm.space); if (v >= 0x80 || o.imm.neg) return true; } return c.it.size != 64 && c.it.size != 0; };
@@ -107,9 +107,9 @@ void prop_c03_encoding(hz::Ctx &ctx) {
     size_t ncomb = std::max<size_t>(big, 1);
     for (size_t vi = 0; vi < sps.size(); vi++) {
       // rotate through the destinations so that every (destination, value) pair of the first slot is hit
-      size_t dsteps = ctx.thorough() ? ncomb : std::min<size_t>(ncomb, 6);
+      size_t dsteps = std::min<size_t>(ncomb, ctx.thorough() ? 24 : 6);
       for (size_t dj = 0; dj < dsteps; dj++) {
-        size_t di = ctx.thorough() ? dj : (vi * 5 + dj * 7 + ctx.seed) % ncomb;
+        size_t di = (vi * 5 + dj * 7 + ctx.seed) % ncomb;
         Intent it = base_intent(r);
         for (size_t k = 0; k < r.slots.size(); k++) {
           if (is_imm_slot(r.slots[k])) it.ops.push_back(wimm(sps[vi].v, space, sps[vi].hex, sps[vi].neg, sps[vi].pad));
@@ -122,6 +122,47 @@ void prop_c03_encoding(hz::Ctx &ctx) {
     }
   }
 }
+
+// executed part of C03: the code for `mov r64, v` then `ret`, when executed, yields v (every mode, every spelling)
+struct ExecVerdict { bool ok = true; std::string detail; std::string program; };
+static ExecVerdict exec_mov(int combo, int reg, uint64_t v, bool neg, bool hex, int pad) {
+  ExecVerdict e; WOpd r = wgpr(reg, 64);
+  e.program = "mov " + regtext(r) + ", " + numtext(v, neg, hex, pad) + "\n";
+  if (reg != 0) e.program += "mov rax, " + regtext(r) + "\n";
+  e.program += "ret\n";
+  assemblyline_t a = asm_create_instance(NULL, 0);
+  al::apply_opts(a, combo_opts(combo));
+  int rc = asm_assemble_str(a, e.program.c_str());
+  if (rc != 0) { e.ok = false; e.detail = "EXIT_FAILURE"; asm_destroy_instance(a); return e; }
+  uint64_t (*fn)(void) = (uint64_t(*)(void))asm_get_code(a);
+  int n = asm_get_offset(a);
+  std::string hexs = x86::hex((const uint8_t *)asm_get_code(a), n);
+  // make sure the bytes are the three instructions we expect before jumping into them
+  const uint8_t *p = (const uint8_t *)asm_get_code(a); int off = 0; bool safe = true; int count = 0; std::string last;
+  while (off < n) { x86::Insn I = x86::decode(p + off, n - off); if (!I.ok) { safe = false; break; } last = I.op; if (I.op != "mov" && I.op != "ret") safe = false; off += I.len; count++; }
+  if (!safe || last != "ret") { e.ok = false; e.detail = "refusing to execute unexpected code: " + hexs; asm_destroy_instance(a); return e; }
+  uint64_t got = fn();
+  if (got != v) { e.ok = false; char b[128]; snprintf(b, sizeof b, "returned 0x%llx, want 0x%llx ; code ", (unsigned long long)got, (unsigned long long)v); e.detail = b + hexs; }
+  asm_destroy_instance(a);
+  return e;
+}
+static void prop_c03_exec(hz::Ctx &ctx) {
+  hz::Rng rng(ctx.seed ^ 0xe3ec);
+  auto sps = imm_spellings(64, 'M', rng, ctx.thorough() ? 10000 : 1500, true);
+  const int regs[] = {0, 1, 2, 6, 7, 8, 9, 10, 11};
+  for (size_t i = 0; i < sps.size(); i++) for (int mode = 0; mode < 3; mode++) {
+    int reg = regs[(i + mode) % 9]; int combo = mode + 3 * (int)((i >> 1) & 3);
+    if (!ctx.take()) continue;
+    char idb[160]; snprintf(idb, sizeof idb, "X|%d|%d|%llx|%d|%d|%d", combo, reg, (unsigned long long)sps[i].v, sps[i].neg, sps[i].hex, sps[i].pad);
+    std::string txt = "exec: mov " + regtext(wgpr(reg, 64)) + ", " + numtext(sps[i].v, sps[i].neg, sps[i].hex, sps[i].pad) + " ; ret  [" + combo_name(combo) + "]";
+    if (!ctx.begin(idb, txt)) continue;
+    ctx.cls("exec"); ctx.nontrivial(idb);
+    ExecVerdict e = exec_mov(combo, reg, sps[i].v, sps[i].neg, sps[i].hex, sps[i].pad);
+    if (ctx.want_sample()) ctx.put_sample(txt + (e.ok ? " -> returned the value" : " -> " + e.detail));
+    if (!e.ok) { hz::Failure f; f.caseid = idb; f.text = txt; f.symptom = "exec-value"; f.detail = e.detail; f.tags = {"group:exec", "mn:mov", "form:exec", "sym:exec-value"}; ctx.fail(f); }
+  }
+}
+void prop_c03(hz::Ctx &ctx) { prop_c03_encoding(ctx); prop_c03_exec(ctx); }
 
 // ---------------------------------------------------------------- C04
 void prop_c04(hz::Ctx &ctx) {
@@ -230,6 +271,11 @@ void prop_c05(hz::Ctx &ctx) {
 
 // replay of one serialized line case under the generic oracle (C01-C04 and the indirect part of C05)
 int replay_line(const std::string &prop, const std::string &caseid) {
+  if (caseid.compare(0, 2, "X|") == 0) {
+    auto f = split(caseid, '|'); if (f.size() != 7) return 2;
+    ExecVerdict e = exec_mov(atoi(f[1].c_str()), atoi(f[2].c_str()), strtoull(f[3].c_str(), nullptr, 16), f[4] == "1", f[5] == "1", atoi(f[6].c_str()));
+    printf("%s", e.program.c_str()); if (e.ok) { printf("OK\n"); return 0; } printf("FAIL %s\n", e.detail.c_str()); return 1;
+  }
   LineCase c; if (!parse_case(caseid, c)) { fprintf(stderr, "cannot parse case\n"); return 2; }
   printf("line: %s   [%s]\n", text(c.it).c_str(), combo_name(c.combo).c_str());
   if (prop == "C05" && c.it.form == "REL") {
